@@ -331,6 +331,26 @@ func (c *Ctx) SessionLifecycle(prop string) {
 					}
 					continue
 				}
+				// `return entry, true` below the presence test of the read that produced entry
+				if k, isK := fv.(*ssa.Const); isK && an.Term(k) == "true" {
+					if sx, okS := sv.(*ssa.Extract); okS && sx.Index == 0 {
+						if lk, isLk := sx.Tuple.(*ssa.Lookup); isLk {
+							var present ssa.Value
+							for _, r := range *lk.Referrers() {
+								if e2, ok := r.(*ssa.Extract); ok && e2.Index == 1 {
+									present = e2
+								}
+							}
+							target := ssa.Instruction(ret)
+							if x, _ := an.Cut(an.CutQuery{From: an.Entry(p.Lookup), Target: func(i ssa.Instruction) bool { return i == target },
+								AcceptEdge: func(b *ssa.BasicBlock, i int, a *an.Atom) bool {
+									return a != nil && present != nil && a.Op == "true" && a.LV == present
+								}}); x == nil && present != nil {
+								continue
+							}
+						}
+					}
+				}
 				pairs = append(pairs, pair{sv, fv})
 			}
 			for _, pr := range pairs {
